@@ -1563,8 +1563,16 @@ pub fn gen_ops_c13(rng: &mut SimRng, thorough: bool) -> Vec<Op> {
 	}
 	// headers of one fork ahead of the blocks of another, then threshold spends
 	let at = rng.usize_below(ops.len() + 1);
+	let r3 = {
+		let r = rng.next_u64() >> 1;
+		r - (r % 3)
+	};
 	let seq = vec![
 		Op::HeaderAhead { r: rng.next_u64() },
+		// the header chain is one ahead: a lock height of exactly the height it has reached is still in
+		// the future for the next block (r % 3 == 0: the lock is next height + 1)
+		Op::Submit { kind: Submit::LockFuture, stem: false, r: r3 },
+		Op::Submit { kind: Submit::LockNext, stem: false, r: rng.next_u64() },
 		Op::Reorg { depth: rng.range(2, 3), r: rng.next_u64() },
 		Op::Submit { kind: Submit::JustMatureCoinbase, stem: false, r: rng.next_u64() },
 		Op::Submit { kind: Submit::ImmatureCoinbase, stem: false, r: rng.next_u64() },
